@@ -151,6 +151,8 @@ func checkC07(e *RunEnv) *CheckResult {
 				Write("zz new", "new\n"), Run("add", "zz new").WithTags(t...), Run("commit", "-m", "second").WithTags(t...), Run("commit", "-m", "third, nothing staged").WithTags(t...))
 			cs = append(cs, Case{Base: base, BaseName: "S0", BaseSeed: seedS0(), Steps: steps, Probe: true})
 		}
+		// a directory of 900 files (tree > 32 KiB, index > 64 KiB), names at the length limit, identical directories
+		cs = append(cs, Case{Base: base, BaseName: "S0", BaseSeed: seedS0(), Steps: append(hugeDirSteps(900), Run("commit", "-m", "nothing staged")), Probe: true})
 		sweep = x.RunCases(cs)
 	}, func(x *Explorer, cov map[string]interface{}) {
 		cov["name_sweep_cases"] = sweep
